@@ -188,7 +188,7 @@ NonUniform(g) == g.has /\ NLt(NAdd(g.lo, NOne), g.hi)
 \* e: the call event (arguments, raised, dtype, n); sums: chunk summaries with seen as a set
 RsFails(f, a, c, raised, dtype, fmtname, n, sums) ==
   IF ~Domain(f, a, c) THEN {}
-  ELSE IF raised # "" THEN {"error", PathTag(f, a, c)}
+  ELSE IF raised # "" THEN {"error"}
   ELSE
   LET seen == UNION {sums[k].seen : k \in 1..Len(sums)}
       gn == FoldG(sums, Len(sums), TRUE)
@@ -211,11 +211,10 @@ RsFails(f, a, c, raised, dtype, fmtname, n, sums) ==
                    \cup (IF a.huge /\ a.size >= HugeMinSize /\ both("huge", "nhuge") THEN {"has_huge"} ELSE {})
                    \cup (IF a.nan /\ Miss("nan") THEN {"has_nan"} ELSE {}))
         \cup (IF ~OrderWaived(a, c) /\ (NonUniform(gn) \/ NonUniform(gp)) THEN {"uniform"} ELSE {})
-  IN  IF fails = {} THEN {} ELSE fails \cup {PathTag(f, a, c)}
+  IN  fails
 
-\* element-level verdict of one chunk (domain-guarded, labelled)
-ChunkFails(f, a, c, sum) ==
-  IF ~Domain(f, a, c) \/ sum.bad = {} THEN {} ELSE sum.bad \cup {PathTag(f, a, c)}
+\* element-level verdict of one chunk (domain-guarded)
+ChunkFails(f, a, c, sum) == IF ~Domain(f, a, c) THEN {} ELSE sum.bad
 
 (*************************** Cartesian products ****************************)
 EqVal(f, x, y) == IF IsNaN(f, x) \/ IsNaN(f, y) THEN IsNaN(f, x) /\ IsNaN(f, y)
